@@ -71,8 +71,8 @@ def step (line : String) : String :=
       let mk := marksOf marks
       let mk' := marksOf (marks ++ late)
       let order := sortByAtime (scan mk found).1
-      let r := clean mk mk' (fun _ => true) hi lo found order
-      "evicted=" ++ showPaths r.1 ++ " total=" ++ toString r.2.2
+      let r := clean mk mk' (fun _ => true) (fun _ => true) hi lo found order
+      "evicted=" ++ showPaths r.evicted ++ " total=" ++ toString r.total
     | _, _, _, _, _, _ => "bad-op"
   | ["sp", hi, lo, found, marks, late, evicted, total] =>
     match hi.toNat?, lo.toNat?, parseFound found, parseMarks marks, parseLate late, total.toNat? with
